@@ -327,6 +327,13 @@ Proof.
   destruct (op_closed s F st rs S C) as (H & _). rewrite H. reflexivity.
 Qed.
 
+(* readinto(b) with a read-only b (bytes, read-only memoryview): TypeError, nothing consumed, open or closed --
+   exactly io.BytesIO.readinto's answer *)
+Lemma op_readinto_readonly fillb F file st :
+  step fillb F file OReadintoRO st = Some (VExc TypeError, st) /\
+  forall D rs, ref_step D OReadintoRO rs = Some (VExc TypeError, rs).
+Proof. split; [reflexivity|]. intros D rs. unfold ref_step. destruct (rclosed rs); reflexivity. Qed.
+
 (* ------------------------------------------------------------------ the live constants *)
 Lemma constants_agree :
   mode_code MClosed = live_MODE_CLOSED /\ mode_code MRead = live_MODE_READ /\
